@@ -432,7 +432,14 @@ func cmdCheck(args []string) int {
 			if !knownSeen[k] {
 				knownSeen[k] = true
 				f := open[k]
-				fmt.Printf("KNOWN-FINDING: property=%s %s %s [%s] input=[%s]\n", id, k, f.What, f.Where, fmtVec(rr.KnownSeen[k]))
+				nat := "not-replayed"
+				if native != nil && rr.KnownSeen[k] != nil {
+					nat = native.run(run.Pkg, rr.KnownSeen[k]).Status
+				}
+				fmt.Printf("KNOWN-FINDING: property=%s %s %s [%s] input=[%s] native=%s\n", id, k, f.What, f.Where, fmtVec(rr.KnownSeen[k]), nat)
+				if len(samples) < 10 {
+					samples = append(samples, map[string]interface{}{"harness": run.Entry, "known_finding": k, "input": fmtVec(rr.KnownSeen[k]), "native": nat})
+				}
 			}
 		}
 		// cross-solver diff of assertion queries (thorough tier)
